@@ -10,6 +10,7 @@
 //! 2 on a tool error.
 
 mod exact;
+mod minmax;
 mod moments;
 mod pairs;
 mod report;
@@ -100,6 +101,19 @@ fn main() {
             vals.par_iter()
                 .fold(Report::default, |mut r, v| {
                     pairs::process_line(v, &want, &mut r);
+                    r
+                })
+                .reduce(Report::default, Report::merge)
+        }
+        ("replay", Some("minmax")) => {
+            let vals = read_emitted(&m["input"]);
+            let want = minmax::MWant {
+                prop: m["prop"].clone(),
+                scales: list(&m, "embeddings", "1").iter().map(|s| s.parse::<f64>().unwrap()).collect(),
+            };
+            vals.par_iter()
+                .fold(Report::default, |mut r, v| {
+                    minmax::process_line(v, &want, &mut r);
                     r
                 })
                 .reduce(Report::default, Report::merge)
